@@ -6,13 +6,15 @@
    observations.  No proofs. *)
 From Verif Require Import Base Conc.
 
-Record qobs := { qo_vals : list Z; qo_tok : nat; qo_closed : bool }.
+Record qobs := { qo_vals : list Z; qo_tok : nat }.
 Record ccase := {
   k_caps : list nat; k_wg : nat; k_threads : list thread;
   k_sched : list nat;
-  k_results : list (list result);
+  k_enabled : list (list nat);          (* the threads the scheduler found enabled before each step *)
+  k_results : list (option (list result));   (* None: a library helper goroutine (results not observable) *)
   k_queues : list qobs;
-  k_final : bool            (* every goroutine finished *)
+  k_final : bool;           (* every goroutine finished *)
+  k_hung : bool             (* a granted step blocked inside the runtime (never expected) *)
 }.
 
 Definition result_eqb (a b : result) : bool :=
@@ -29,7 +31,27 @@ Definition init_config (k : ccase) : config :=
   {| queues := map mkq (k_caps k); wg := k_wg k; threads := k_threads k |}.
 
 Definition qobs_ok (s : qstate) (o : qobs) : bool :=
-  list_eqb Z.eqb (qvals s) (qo_vals o) && Nat.eqb (qtok s) (qo_tok o) && Bool.eqb (qclosed s) (qo_closed o).
+  list_eqb Z.eqb (qvals s) (qo_vals o) && Nat.eqb (qtok s) (qo_tok o).
+
+Definition results_ok (th : thread) (o : option (list result)) : bool :=
+  match o with
+  | None => true
+  | Some rs => list_eqb result_eqb (tres th) rs
+  end.
+
+Definition enabled_set (c : config) : list nat :=
+  filter (enabled c) (seq 0 (length (threads c))).
+
+(* follows the schedule; every step must be enabled and the enabled set must be the recorded one *)
+Fixpoint run_checked (c : config) (sched : list nat) (en : list (list nat)) : option config :=
+  match sched, en with
+  | [], [] => Some c
+  | t :: rest, e :: en' =>
+    if list_eqb Nat.eqb (enabled_set c) e then
+      match step c t with Some c' => run_checked c' rest en' | None => None end
+    else None
+  | _, _ => None
+  end.
 
 Fixpoint all2b {A B} (f : A -> B -> bool) (a : list A) (b : list B) : bool :=
   match a, b with
@@ -38,14 +60,18 @@ Fixpoint all2b {A B} (f : A -> B -> bool) (a : list A) (b : list B) : bool :=
   | _, _ => false
   end.
 
-(* 0 = ok; 1 = a recorded step is not enabled in the model; 2 = results differ; 3 = queue state differs; 4 = finality differs *)
+(* 0 = ok; 1 = a recorded step is not enabled in the model, or the sets of enabled threads differ at some step;
+   2 = results differ; 3 = queue state differs; 4 = finality differs; 5 = the implementation blocked inside the runtime;
+   6 = the model still has an enabled thread where the implementation had none *)
 Definition check_case (k : ccase) : nat :=
-  match run_strict (init_config k) (k_sched k) with
+  if k_hung k then 5 else
+  match run_checked (init_config k) (k_sched k) (k_enabled k) with
   | None => 1
   | Some c =>
-    if negb (list_eqb (list_eqb result_eqb) (map tres (threads c)) (k_results k)) then 2
+    if negb (all2b results_ok (threads c) (k_results k)) then 2
     else if negb (all2b qobs_ok (queues c) (k_queues k)) then 3
     else if negb (Bool.eqb (final c) (k_final k)) then 4
+    else if negb (match enabled_set c with [] => true | _ => false end) then 6
     else 0
   end%nat.
 
@@ -65,6 +91,8 @@ Fixpoint follow (c : config) (sched : list nat) (k : nat) : nat * config :=
   | [] => (k, c)
   | t :: rest => match step c t with Some c' => follow c' rest (S k) | None => (k, c) end
   end.
+Definition dummy_case : ccase :=
+  {| k_caps := []; k_wg := 0; k_threads := []; k_sched := []; k_enabled := []; k_results := []; k_queues := []; k_final := true; k_hung := false |}.
 Definition case_report (k : ccase) :=
   let '(n, c) := follow (init_config k) (k_sched k) 0 in
-  (n, length (k_sched k), map tres (threads c), map (fun s => (qvals s, qtok s, qclosed s)) (queues c)).
+  (n, length (k_sched k), enabled_set c, map tres (threads c), map (fun s => (qvals s, qtok s, qclosed s)) (queues c)).
